@@ -436,6 +436,16 @@ def replay_text(case, obs, mode):
                           "" if case["alt"] is None else ", alt", "" if case["alt"] is None else ", default=alt"))
     L = [head, "import functools, operator", "from zope.interface import Interface, implementer, directlyProvides",
          "from zope.interface.interface import adapter_hooks, interfacemethod", "log = []", ""]
+    fl = case.get("flavour")
+    if fl is None:
+        L += ["def V(tag):   # the value a step returns", "    return tag", ""]
+    else:
+        L += ["class FalsyBool:", "    def __bool__(self): return False", "class LenZero:", "    def __len__(self): return 0",
+              "FLAVOURS = [lambda t: (), lambda t: 0, lambda t: '', lambda t: [], lambda t: FalsyBool(), lambda t: LenZero(),",
+              "            lambda t: (t, t), lambda t: (t,), lambda t: ((t, t),), lambda t: float('0.0'), lambda t: {}]",
+              "_vals = {}", "def V(tag):   # the value a step returns: falsy objects and tuples are adapters like any other",
+              "    if tag not in _vals:", "        _vals[tag] = FLAVOURS[(%d + len(_vals)) %% 11](tag)" % fl,
+              "    return _vals[tag]", ""]
     base = "Interface"
     if not case["chain"]:
         L += ["class I0(Interface):", "    pass"]
@@ -452,7 +462,7 @@ def replay_text(case, obs, mode):
         a = l["adapt"]
         if a is not None:
             body += deco + ["    def __adapt__(self, obj):", "        log.append('custom __adapt__ level %d')" % i]
-            body.append({"none": "        return None", "value": "        return ('custom value', %d)" % i,
+            body.append({"none": "        return None", "value": "        return V('custom value %d')" % i,
                          "raise": "        raise %s('custom')" % {"attr": "AttributeError", "type": "TypeError", "other": "ValueError"}.get(a[1] if len(a) > 1 else "", "ValueError"),
                          "delegate": "        return %s.__adapt__(obj)" % sup}[a[0]])
         pv = l.get("prov")
@@ -477,7 +487,7 @@ def replay_text(case, obs, mode):
             L.append("directlyProvides(Obj, I)")
     elif case.get("attach", "method") != "method" and c[0] in ("retnone", "retvalue", "raise", "te0"):
         attach = case["attach"]
-        body = {"retnone": "log.append('conform'); return None", "retvalue": "log.append('conform'); return 'conform value'",
+        body = {"retnone": "log.append('conform'); return None", "retvalue": "log.append('conform'); return V('conform value')",
                 "raise": "log.append('conform'); raise %s('in __conform__')" % en.get(c[1] if len(c) > 1 else "", "ValueError"),
                 "te0": "return 'never entered: the call fails with a TypeError at depth 0 (wrong arity)'"}[c[0]]
         params = "" if c[0] == "te0" else "iface"
@@ -517,7 +527,7 @@ def replay_text(case, obs, mode):
         elif c[0] == "retnone":
             L += ["    def __conform__(self, iface):", "        log.append('conform'); return None"]
         elif c[0] == "retvalue":
-            L += ["    def __conform__(self, iface):", "        log.append('conform'); return 'conform value'"]
+            L += ["    def __conform__(self, iface):", "        log.append('conform'); return V('conform value')"]
         elif c[0] == "raise":
             L += ["    def __conform__(self, iface):", "        log.append('conform'); raise %s('in __conform__')" % en[c[1]]]
         elif c[0] == "te0" and case.get("te0how") == "arity":
@@ -531,6 +541,17 @@ def replay_text(case, obs, mode):
         if case["provides"]:
             L.append("implementer(I)(Obj)   # declared via: %s" % case.get("how", "implementer"))
         L.append("obj = Obj()")
+    of = case.get("objflavour", "plain")
+    if of != "plain" and case.get("objkind") != "classobj":
+        if of in ("falsy", "len0"):
+            L.append("Obj.%s = lambda self: %s   # the adapted object is falsy" % (
+                "__bool__" if of == "falsy" else "__len__", "False" if of == "falsy" else "0"))
+        else:
+            init = {"tuple0": "()", "tuple1": "(1,)", "tuple2": "(1, 2)", "nested": "((3, 4),)"}[of]
+            L += ["class TObj(tuple, Obj):   # the adapted object is a tuple", "    pass"]
+            if case["provides"]:
+                L.append("implementer(I)(TObj)")
+            L.append("obj = TObj(%s)" % init)
     L.append("")
     nst = case.get("nested")
     if nst is not None:
@@ -543,7 +564,7 @@ def replay_text(case, obs, mode):
             [("nested hook value" if h[0] == "value" else None) for h in nst["nhooks"]],), ""]
     for i, h in enumerate(case["hooks"]):
         if nst is not None:
-            own = {"none": "return None", "value": "return ('hook value', %d)" % i,
+            own = {"none": "return None", "value": "return V('hook value %d')" % i,
                    "raise": "raise %s('hook %d')" % (en.get(h[1] if len(h) > 1 else "", "ValueError"), i)}[h[0]]
             L += ["def hook%d(iface, ob):" % i,
                   "    if depth[0]:",
@@ -557,11 +578,12 @@ def replay_text(case, obs, mode):
                     L.append("    return nested if isinstance(nested, str) else None")
             L.append("    " + own)
             continue
-        beh = {"none": "return None", "value": "return ('hook value', %d)" % i,
+        beh = {"none": "return None", "value": "return V('hook value %d')" % i,
                "raise": "raise %s('hook %d')" % (en.get(h[1] if len(h) > 1 else "", "ValueError"), i)}[h[0]]
         L += ["def hook%d(iface, ob):" % i, "    log.append('hook %d'); %s" % (i, beh)]
     L.append("adapter_hooks[:] = [%s]" % ", ".join("hook%d" % i for i in range(len(case["hooks"]))))
-    call = "I(obj)" if case["alt"] is None else ("I(obj, None)" if case["alt"] == 0 else "I(obj, 'ALTERNATE')")
+    altx = {None: None, 0: "None", 1: "'ALTERNATE'", 2: "[]", 3: "('ALT', 'ERNATE')", 4: "0.0"}.get(case["alt"], "'ALTERNATE'")
+    call = "I(obj)" if altx is None else "I(obj, %s)" % altx
     L += ["try:", "    print('result:', %s)" % call, "except Exception as e:", "    print('raised:', repr(e))",
           "finally:", "    adapter_hooks[:] = []", "print('steps:', log)"]
     return "\n".join(L)
